@@ -598,6 +598,7 @@ def exec_for(eng, s, fr):
                 raise Unsupported("break inside a yielding invariant-cut loop")
             if isinstance(seqv, Iter) and not seqv.consumed:  # a one-shot iterator keeps what the loop did not take
                 eng.models.iter_advance(eng, seqv, k.z + 1)
+            eng.models.iteration_finished(eng, seqv, eng.snum(k.z + 1, "int"))
             return
         if sink is not None:
             for lab, fn in spec["yields"]:
@@ -630,5 +631,6 @@ def exec_for(eng, s, fr):
         sink.items.append(LoopYields(o, n, [lab for lab, _ in spec["yields"]]))
     if isinstance(seqv, Iter):
         seqv.consumed = True
+    eng.models.iteration_finished(eng, seqv, n)
     at_exit(eng, spec, fr, old_vars, entry_vars, pre)
     eng.exec_block(s.orelse, fr)
